@@ -521,6 +521,9 @@ func (p *PipelinedMemDB) Staging() int {
 // Cleanup implements MemBuffer interface.
 func (p *PipelinedMemDB) Cleanup(h int) {
 	p.memDB.Cleanup(h)
+	// BatchGet also caches values it found in the local buffers; the writes of the discarded stage must not
+	// be served from that cache any more.
+	p.batchGetCache = nil
 }
 
 // Release implements MemBuffer interface.
